@@ -218,7 +218,16 @@ FloatOps(b) ==
         Op(N("to_f64"), "f_total", <<IF b = 2 THEN Fh ELSE "Fs10">>, 1),
         Op(N("convert_base"), "f_base", <<Fh>>, 1),
         Op(N("to_string"), "f_fmt", <<Fh>>, 1), Op(N("debug"), "f_fmt", <<Fh>>, 1),
-        Op(N("into_ibig"), "f_total", <<Fa>>, 0) >>
+        Op(N("into_ibig"), "f_total", <<Fa>>, 0),
+        \* the other call forms of the operators: separate impls, the same preconditions
+        Op(N("add.vv"), "f_addsub", <<Fa, Fb>>, 0), Op(N("add.vr"), "f_addsub", <<Fa, Fb>>, 0), Op(N("add.rv"), "f_addsub", <<Fa, Fb>>, 0),
+        Op(N("add.assign"), "f_addsub", <<Fa, Fb>>, 0),
+        Op(N("sub.vv"), "f_addsub", <<Fa, Fb>>, 0), Op(N("sub.vr"), "f_addsub", <<Fa, Fb>>, 0), Op(N("sub.rv"), "f_addsub", <<Fa, Fb>>, 0),
+        Op(N("sub.assign"), "f_addsub", <<Fa, Fb>>, 0),
+        Op(N("mul.vv"), "f_mul", <<Fh, Fhb>>, 0), Op(N("mul.vr"), "f_mul", <<Fh, Fhb>>, 0), Op(N("mul.rv"), "f_mul", <<Fh, Fhb>>, 0),
+        Op(N("mul.assign"), "f_mul", <<Fh, Fhb>>, 0),
+        Op(N("div.vv"), "f_div", <<Fa, Fb>>, 0), Op(N("div.vr"), "f_div", <<Fa, Fb>>, 0), Op(N("div.rv"), "f_div", <<Fa, Fb>>, 0),
+        Op(N("div.assign"), "f_div", <<Fa, Fb>>, 0) >>
      \o (IF b = 2 THEN << Op(N("try_from_f64"), "total", <<"D">>, 0) >> ELSE << >>)
 
 RatOps ==
